@@ -41,7 +41,8 @@ TTamper == /\ Consume("tamper")
 TOpen == /\ Consume("open") /\ Open(Ev.e, Ev.g)
          /\ res'.ok = Ev.ok
          /\ (Ev.ok => res'.dv = Ev.rdv /\ res'.ct = Ev.rct /\ res'.pl = Ev.rpl)
-         /\ ((Strict /\ Has("hok")) => (Ev.hok <=> res'.why # "hdr"))
+         \* damaged framing is refused at the header or at the body stage depending on the byte (not modelled)
+         /\ ((Strict /\ Has("hok") /\ Env(Ev.e).tam # "frame") => (Ev.hok <=> res'.why # "hdr"))
          /\ StOK
 
 TNext == TReset \/ TSeal \/ TForge \/ TTamper \/ TOpen
